@@ -176,6 +176,8 @@ def check_stream(role, make, data, label, max_cuts):
             rec("C06", "held-back bytes are not exactly the incomplete tail", dict(inputs0, cuts=[]))
     s1 = 1 if n <= 120 else max(1, n // 80)
     cutsets = [[c] for c in sorted(set(list(range(0, n + 1, s1)) + list(range(0, min(n, 12) + 1)) + [n]))]
+    if max_cuts <= 0:
+        cutsets = [[n // 2]]          # whole delivery plus one chunking (large message sets)
     if max_cuts >= 2 and n <= 70:
         cutsets += [[a, b] for a in range(0, n + 1, 1) for b in range(a, n + 1, 3)]
     elif max_cuts >= 2:
@@ -293,6 +295,21 @@ def build_tasks(tier):
     for role, mk, data in pool:
         for cdata, what in corruptions(data):
             T.append((role, mk, cdata, what, 1 if tier == "quick" else 2))
+    # every message of the bounded message set of the C01 / C03 / C04 driver (all nine kinds, every field over its boundary
+    # classes, all filter choices, control lists, both credential choices), delivered whole and in two halves to both roles:
+    # a well-formed message may be refused (ProtocolError) but nothing else may escape
+    try:
+        sys.path.insert(0, os.path.dirname(os.path.abspath(__file__)))
+        import native_messages
+        for i, m in enumerate(native_messages.gen_messages(tier, int(os.environ.get("VERIF_SEED", "0") or 0))):
+            try:
+                data = bytes(m.pack(OPT))
+            except Exception:
+                continue
+            for role in ("server", "client"):
+                T.append((role, role, data, f"message set #{i} {type(m).__name__}", 0))
+    except ImportError:
+        pass
     return T, len(bad), len(pool)
 
 
@@ -322,7 +339,7 @@ def main():
            "violations": allv[:40], "wall_s": round(time.time() - t0, 2),
            "bound": "8 well-formed streams (up to 4 messages, AD long-form envelope, terminations) in 1- and 2-cut chunkings; "
                     f"{nbad} malformed byte strings (complete envelopes with malformed interiors, 1500-deep filter, garbage) alone and after a valid message, 1-cut chunkings; every single-octet corruption "
-                    f"(+1, -1, +0x20, +0x80, =0) of every TLV header octet of {npool} messages, 1-cut chunkings; caller buffer overwritten after each call"}
+                    f"(+1, -1, +0x20, +0x80, =0) of every TLV header octet of {npool} messages, 1-cut chunkings; every message of the bounded message set of the C01/C03/C04 driver to both roles, whole and in two halves; caller buffer overwritten after each call"}
     json.dump(out, sys.stdout, default=str)
 
 
